@@ -322,7 +322,7 @@ def replay(case, site=None):
     cfg = dict(wl=0, Ks=[0], fl=1, forms=["nan"], vals=["pow2"], wforms=True)
     if "agg" in case:
         call = (case["agg"], case["ignore"], c03._tupleize(case["weights"]), c03._tupleize(case["fact"]) if case["fact"] is not None else None)
-        check_data(datas, case["E"], len(datas[0]), cfg, acc, only_call=call, only_combo=None if case.get("stage") == "in-place" else case.get("combo"))
+        check_data(datas, case["E"], len(datas[0]), cfg, acc, only_call=call, only_combo=None if case.get("stage") in ("in-place", "from_array(common=v)") else case.get("combo"))
     else:
         combo = [0] * len(datas)
         combo[case["dim"]] = case["to"]
